@@ -53,13 +53,14 @@ SALTED = {"md5_crypt": "chars", "apr_md5_crypt": "chars", "sha256_crypt": "chars
           "ldap_sha1_crypt": "chars", "ldap_bcrypt": "fixed"}
 # algorithm-variant settings: hasher -> {keyword: {accepted spelling: value the hash must carry}}; anything else must be refused
 FSHP_V = {0: 0, 1: 1, 2: 2, 3: 3, "0": 0, "1": 1, "2": 2, "3": 3, "sha1": 0, "sha256": 1, "sha384": 2, "sha512": 3}
-PALETTE = sorted(set(COST) | set(SALTED) | {"ldap_md5_crypt", "unix_disabled", "hex_md5", "mysql41", "cisco_type7"})
+PALETTE = sorted(set(COST) | set(SALTED) | {"ldap_md5_crypt", "unix_disabled", "hex_md5", "mysql41", "cisco_type7", "lmhash"})
 CORE = ("sha256_crypt", "sha512_crypt", "bcrypt", "bcrypt_sha256", "pbkdf2_sha256", "pbkdf2_sha1", "sha1_crypt", "phpass", "scrypt", "bsdi_crypt",
         "django_pbkdf2_sha256", "ldap_sha256_crypt", "django_bcrypt", "pbkdf2_sha512", "md5_crypt", "apr_md5_crypt", "ldap_salted_sha1",
         "django_salted_sha1", "des_crypt", "ldap_md5_crypt", "unix_disabled", "hex_md5", "mysql41")
 IDENTS = {"bcrypt": ["2a", "2b", "2y", "2", "$2b$", "9z"], "phpass": ["P", "H", "$P$", "Q"], "django_bcrypt": ["2a", "2b"],
           "bcrypt_sha256": ["2a", "2a", "2b"]}
-TRUNC = {"bcrypt": 72, "des_crypt": 8, "django_bcrypt": 72}  # hasher -> size limit in bytes
+TRUNC = {"bcrypt": 72, "des_crypt": 8, "django_bcrypt": 72, "lmhash": 14}  # hasher -> size limit in bytes of the ENCODED password
+TRUNC_ENC = {"lmhash": "cp437"}  # (lmhash hashes the password in the OEM code page: one byte per character; the others in UTF-8)
 ATTRS = ["name", "default_rounds", "min_rounds", "max_rounds", "min_desired_rounds", "max_desired_rounds", "vary_rounds", "rounds_cost",
          "default_salt_size", "min_salt_size", "max_salt_size", "default_ident", "truncate_error", "truncate_size", "default_marker", "version",
          "block_size", "parallelism", "setting_kwds", "context_kwds", "ident_values", "salt_chars", "checksum_size"]
@@ -119,8 +120,12 @@ def _gen_settings(rng, name):
         kw["variant"] = rng.choice([0, 0, 1, 2, 3, "0", "2", "sha1", "sha384", "sha512", 4, "md5"])
     if name == "scrypt" and rng.random() < 0.4:
         kw[rng.choice(["block_size", "parallelism"])] = rng.choice([1, 2, 8, 0, 2 ** 31])
-    if name in ("bcrypt", "des_crypt", "django_bcrypt") and rng.random() < 0.3:
+    if name in ("bcrypt", "des_crypt", "django_bcrypt", "lmhash") and rng.random() < 0.3:
         kw["truncate_error"] = rng.choice([True, False, "true", "false"])
+    if name == "scrypt" and rng.random() < 0.3:
+        kw["ident"] = rng.choice(["$7$", "$7$", "$scrypt$"])
+    if name == "scrypt" and rng.random() < 0.2:
+        kw["salt"] = {"b": rng.choice(["fixedsaltvalue", "abcd", "0123456789abcdef"])}  # a fixed raw salt, handed over as bytes
     if name == "unix_disabled" and rng.random() < 0.7:
         kw["marker"] = rng.choice(["!", "*", "!!", "x", ""])
     if rng.random() < 0.05:
@@ -199,6 +204,8 @@ def generate(rng, prop, tier):
         c = rng.randrange(nclients)
         first, second = rng.choice([(True, False), (True, False), (False, True), ("true", "false")])
         long_pw = "L" * 80 if hashers[g] != "des_crypt" else rng.choice(["123456789", "pässwörd"])
+        if hashers[g] == "lmhash":
+            long_pw = rng.choice(["é" * 10, "é" * 14, "x" * 15, "é" * 15])  # (10 or 14 characters fit, whatever UTF-8 would make of them)
         cost = {"rounds": COST[hashers[g]][0]} if hashers[g] in COST else {}
         if hashers[g] == "bcrypt" and rng.random() < 0.6:
             cost["ident"] = rng.choice(["2", "2", "2a", "2y", "2b"])  # (the legacy variants prepare the password differently)
@@ -437,8 +444,16 @@ class _W:
                 if kw["ident"] not in good:
                     return "must-raise", c
                 c.ident = kw["ident"].strip("$")
+            elif base == "scrypt" and kw["ident"] in ("$7$", "$scrypt$"):
+                c.variant["_scrypt_ident"] = kw["ident"]  # (both spellings carry the same fields; judged through the extractor)
             else:
                 return "either", c
+        if base == "scrypt" and c.variant.get("_scrypt_ident") == "$7$":
+            # the '$7$' spelling stores a GENERATED salt as base64 text (4/3 of the configured size, and it must still fit into
+            # 1024 bytes): the configured size is not what the hash shows, and very large sizes cannot be hashed at all
+            if c.salt_size is not None and c.salt_size > 700:
+                c.known = False
+            c.salt_size = None
         if "version" in kw:
             if kw["version"] not in (1, 2):
                 return "must-raise", c
@@ -456,7 +471,10 @@ class _W:
                         c.variant_unknown = True
                     else:
                         c.variant[k] = max(1, kw[k]) if relaxed else kw[k]
-        if "salt" in kw and base != "cisco_type7":
+        if "salt" in kw and base == "scrypt":
+            c.variant["fixed_salt_raw"] = kw["salt"]["b"] if isinstance(kw["salt"], dict) else kw["salt"]
+            c.salt_size = None
+        elif "salt" in kw and base != "cisco_type7":
             sv = kw["salt"]["b"] if isinstance(kw["salt"], dict) else kw["salt"]
             H0 = getattr(self.ph, base)
             legal = all(ch in H0.salt_chars for ch in sv)
@@ -527,7 +545,7 @@ class _W:
                               lambda: f"{where}: {base} window [{n.lo}, {n.hi}] default {n.d}: hash {h!r} has cost {c}", hasher=base)
                 r = _call(n.H.needs_update, h)
                 ctx.check(r == ("ok", False), "C09", "own-hash-needs-update", f"{where}: {h!r} -> {r[:2]}", hasher=base)
-        if base in SALTED and n.salt_size is not None and SALTED[base] != "fixed" and not n.dirty and "fixed_salt" not in n.variant:
+        if base in SALTED and n.salt_size is not None and SALTED[base] != "fixed" and not n.dirty and "fixed_salt" not in n.variant and "fixed_salt_raw" not in n.variant:
             ex = extract(h, only=(base,))
             if ex is not None:
                 ctx.check(len(ex[2]) == n.salt_size, "C09", "salt-size-differs-from-settings",
@@ -546,6 +564,10 @@ class _W:
                 want = n.variant.get(k, default[k])
                 ctx.check(got == want, "C09", "variant-differs-from-settings",
                           lambda: f"{where}: {base} configured {k}={want!r} (settings in force {n.variant}): hash {h!r} carries {got!r}", hasher=base, setting=k)
+        if "fixed_salt_raw" in n.variant and not n.dirty:
+            ex = extract(h, only=(base,))
+            ctx.check(ex is not None and ex[2] == n.variant["fixed_salt_raw"].encode("ascii"), "C09", "variant-differs-from-settings",
+                      lambda: f"{where}: {base} configured salt={n.variant['fixed_salt_raw']!r}: hash {h!r} carries {None if ex is None else ex[2]!r}", hasher=base, setting="salt")
         if "fixed_salt" in n.variant and not n.dirty and not getattr(n, "variant_unknown", False):
             ex = extract(h, only=(base,))
             if ex is not None:
@@ -648,7 +670,7 @@ class _W:
         self.compare(before, self.snapshots(skip=(op["node"],)), f"hash() on node {op['node']}")
         self.ctx.log("hash", op["node"], r[:2])
         if n.base in TRUNC and n.trunc is not None and not n.dirty:
-            over = len(op["pw"].encode("utf-8")) > TRUNC[n.base]  # the limits count bytes of the encoded password
+            over = len(op["pw"].encode(TRUNC_ENC.get(n.base, "utf-8"))) > TRUNC[n.base]  # the limits count bytes of the encoded password
             refused = r[0] == "exc" and r[1] == "PasswordTruncateError"
             self.ctx.check(refused == (over and n.trunc), "C09", "truncation-policy-differs-from-settings",
                            lambda: f"{n.base} (depth {n.depth}) configured truncate_error={n.trunc}: hash of a {len(op['pw'].encode('utf-8'))}-byte password "
